@@ -170,6 +170,11 @@ func scenario(sn Scen, eager bool, preempt int) *explore.Scenario {
 	return sc
 }
 
+func fileExists(p string) bool {
+	_, err := os.Stat(p)
+	return err == nil
+}
+
 func stateOf(r c12ops.Result) string {
 	switch r.Op {
 	case "ListDevices":
@@ -248,38 +253,100 @@ func parseRaces(logs []string) map[string]string {
 		if err != nil {
 			continue
 		}
-		for _, rep := range strings.Split(string(b), "WARNING: DATA RACE")[1:] {
-			if i := strings.Index(rep, "=================="); i >= 0 {
-				rep = rep[:i]
-			}
-			// stacks are separated by blank lines; the first two blocks are the two accesses
-			blocks := strings.Split(rep, "\n\n")
-			var frames []string
-			for _, bl := range blocks {
-				if len(frames) == 2 {
-					break
-				}
-				if !(strings.Contains(bl, "Read at") || strings.Contains(bl, "Write at") || strings.Contains(bl, "Previous read") || strings.Contains(bl, "Previous write")) {
-					continue
-				}
-				m := raceFrame.FindStringSubmatch(bl)
-				if m != nil {
-					frames = append(frames, m[1])
-				} else {
-					frames = append(frames, "?")
-				}
-			}
-			sort.Strings(frames)
-			sig := strings.Join(frames, " | ")
+		for sig, rep := range parseRaceText(string(b)) {
 			if _, ok := sigs[sig]; !ok {
-				if len(rep) > 2500 {
-					rep = rep[:2500]
-				}
 				sigs[sig] = rep
 			}
 		}
 	}
 	return sigs
+}
+
+var frameLine = regexp.MustCompile(`(?m)^  (\S+)\(\)\n\s+(\S+):(\d+)`)
+
+// topFrame returns the innermost frame of an access that is neither Go runtime / standard
+// library nor a transparent shim wrapper, and whether it belongs to the harness (scheduler,
+// environment model, explorer, check driver, overlay-added export file) rather than to the
+// code under test. Frames are classified by SOURCE FILE, not by function name: a closure of
+// the library inlined into a harness function is still library code.
+func topFrame(block string) (fn string, harness bool) {
+	for _, m := range frameLine.FindAllStringSubmatch(block, -1) {
+		f, file := m[1], m[2]
+		switch {
+		case strings.HasPrefix(file, "/usr/") || strings.Contains(file, "/go/src/") || strings.HasPrefix(file, "<"):
+			continue // standard library / runtime: the access belongs to the caller
+		case strings.Contains(file, "/verifshim/vsync/") && strings.Contains(f, "SortedKeys"),
+			strings.Contains(file, "/verifshim/vos/"), strings.Contains(file, "/verifshim/vfilepath/"), strings.Contains(file, "/verifshim/vunix/"):
+			continue // transparent wrappers
+		case strings.Contains(file, "/verifshim/"), strings.HasPrefix(file, "/verif/"), strings.Contains(file, "/.vp/"), strings.HasSuffix(file, "export_verif.go"):
+			return f, true
+		}
+		return filepath.Base(file) + ":" + f[strings.LastIndex(f, "/")+1:], false
+	}
+	return "?", true
+}
+
+// parseRaceText extracts one signature per data race report in which BOTH conflicting
+// accesses are made by the code under test (reports between two harness accesses - the
+// scheduler's own bookkeeping is deliberately invisible to the detector - are dropped).
+func parseRaceText(text string) map[string]string {
+	sigs := map[string]string{}
+	for _, rep := range strings.Split(text, "WARNING: DATA RACE")[1:] {
+		if i := strings.Index(rep, "=================="); i >= 0 {
+			rep = rep[:i]
+		}
+		blocks := strings.Split(rep, "\n\n")
+		var frames []string
+		keep := true
+		for _, bl := range blocks {
+			if len(frames) == 2 {
+				break
+			}
+			if !(strings.Contains(bl, "Read at") || strings.Contains(bl, "Write at") || strings.Contains(bl, "Previous read") || strings.Contains(bl, "Previous write")) {
+				continue
+			}
+			fn, harness := topFrame(bl)
+			if harness {
+				keep = false
+			}
+			frames = append(frames, fn)
+		}
+		if !keep || len(frames) < 2 {
+			continue
+		}
+		sort.Strings(frames)
+		sig := strings.Join(frames, " | ")
+		if _, ok := sigs[sig]; !ok {
+			if len(rep) > 2500 {
+				rep = rep[:2500]
+			}
+			sigs[sig] = rep
+		}
+	}
+	return sigs
+}
+
+// raceLogTail returns what the race detector wrote to its log since the last call.
+var raceLogOffset int64
+
+func raceLogTail() string {
+	base := os.Getenv("VERIF_RACELOG")
+	if base == "" {
+		return ""
+	}
+	f, err := os.Open(base + "." + strconv.Itoa(os.Getpid()))
+	if err != nil {
+		return ""
+	}
+	defer f.Close()
+	st, _ := f.Stat()
+	if st.Size() <= raceLogOffset {
+		return ""
+	}
+	buf := make([]byte, st.Size()-raceLogOffset)
+	_, _ = f.ReadAt(buf, raceLogOffset)
+	raceLogOffset = st.Size()
+	return string(buf)
 }
 
 func main() {
@@ -304,6 +371,9 @@ func main() {
 			enc := json.NewEncoder(os.Stdout)
 			k := 0
 			for _, sn := range scenarios(thorough) {
+				if only := os.Getenv("VERIF_C12_ONLY"); only != "" && !strings.Contains(sn.String(), only) {
+					continue
+				}
 				for _, eager := range []bool{false, true} {
 					if eager && !sn.Auto {
 						continue // without watcher threads both orders coincide
@@ -316,7 +386,22 @@ func main() {
 					if sn.Kind == "pair" {
 						p = preempt - 1 // the pair matrix is wide (105 pairs x 2 modes): one preemption less than the switch scenarios
 					}
-					res := explore.Explore(scenario(sn, eager, p), time.Unix(dl, 0))
+					sc := scenario(sn, eager, p)
+					if raceBuild {
+						// this binary's scheduler hands over through raw pipe syscalls: the race detector
+						// checks every explored (serialised) schedule; new reports belong to the schedule just run
+						sc.Bounds.Preemptions = p - 1
+						if sc.Bounds.Preemptions < 0 {
+							sc.Bounds.Preemptions = 0
+						}
+						sc.AfterExec = func(e *sched.Exec) (string, string, any) {
+							for sig, rep := range parseRaceText(raceLogTail()) {
+								return "data-race:" + sig, "the Go race detector reports a data race between " + sig + " in this schedule of " + sn.String(), rep
+							}
+							return "", "", nil
+						}
+					}
+					res := explore.Explore(sc, time.Unix(dl, 0))
 					_ = enc.Encode(workerOut{Scenario: sn, Eager: eager, Executions: res.Executions, Points: res.Points, Outcomes: res.Outcomes, Violations: res.Violations, Capped: res.Capped, Infra: res.Infra})
 				}
 			}
@@ -421,6 +506,59 @@ func main() {
 			r.Fail(&hx.Failure{Sig: v.Sig, Msg: v.Msg, Case: Case{Scenario: o.Scenario, Eager: o.Eager, Choices: v.Choices, Schedule: v.Schedule}, Rank: int64(len(v.Choices))})
 		}
 	}
+	// ---- half 1b: the same exploration (one preemption less) under the race detector, with the
+	// scheduler's hand-offs invisible to it: every explored schedule is also a race check
+	raceChecked, raceScen := int64(0), 0
+	if bin := filepath.Join(hx.VerifRoot, ".bin", "c12r"); fileExists(bin) {
+		xlog := filepath.Join(scratch, "xrace")
+		nr := 14
+		rres := make(chan workerOut, 8192)
+		rdone := make(chan error, nr)
+		for w := 0; w < nr; w++ {
+			go func(w int) {
+				cmd := exec.Command(bin, "-worker", fmt.Sprintf("%d/%d", w, nr), r.Tier, strconv.FormatInt(r.Deadline.Unix(), 10))
+				cmd.Env = append(os.Environ(), "GORACE=halt_on_error=0 exitcode=0 log_path="+xlog, "VERIF_RACELOG="+xlog)
+				cmd.Stderr = os.Stderr
+				out, err := cmd.Output()
+				dec := json.NewDecoder(bytes.NewReader(out))
+				for {
+					var o workerOut
+					if dec.Decode(&o) != nil {
+						break
+					}
+					rres <- o
+				}
+				rdone <- err
+			}(w)
+		}
+		go func() {
+			for w := 0; w < nr; w++ {
+				if err := <-rdone; err != nil {
+					fmt.Println("INFRA: race-build worker failed:", err)
+					os.Exit(2)
+				}
+			}
+			close(rres)
+		}()
+		for o := range rres {
+			raceScen++
+			if o.Infra != "" {
+				fmt.Println("INFRA (race build):", o.Infra, "in", o.Scenario)
+				os.RemoveAll(scratch)
+				os.Exit(2)
+			}
+			if o.Capped {
+				r.Cap("time cap hit (race build)")
+			}
+			raceChecked += o.Executions
+			r.AddEvals(o.Executions, o.Executions)
+			for _, v := range o.Violations {
+				r.Fail(&hx.Failure{Sig: v.Sig, Msg: v.Msg, Case: Case{Scenario: o.Scenario, Eager: o.Eager, Choices: v.Choices, Schedule: v.Schedule}, Actual: v.Detail, Rank: int64(len(v.Choices))})
+			}
+		}
+	}
+	r.Extra["schedules_race_checked_under_controlled_scheduler"] = raceChecked
+	r.Extra["race_check_note"] = "the -race build of the explorer hands control over through raw pipe syscalls (no happens-before edge between controlled threads), so each of these schedules was checked by the Go race detector with only the code's own synchronisation visible; reports whose two accesses are both in the code under test are violations"
 	err = <-raceDone
 	if ee, ok := err.(*exec.ExitError); ok && ee.ExitCode() == 66 {
 		err = nil // the race detector's own exit status when it reported races: the log is parsed below
